@@ -382,7 +382,9 @@ func (store *HStore) Set(ki *KeyInfo, p *Payload) error {
 }
 
 func (store *HStore) GetRecordByKeyHash(ki *KeyInfo) (*Record, bool, error) {
-	ki.Prepare()
+	if err := ki.Prepare(); err != nil || ki.BucketID < 0 {
+		return nil, false, nil
+	}
 	bkt := store.buckets[ki.BucketID]
 	if bkt.State != BUCKET_STAT_READY {
 		return nil, false, nil
